@@ -99,8 +99,8 @@ def conforms(v, T):
         if a is Any:
             return True
         if typing.get_origin(a) in (Union, types.UnionType):
-            return any(issubclass(v, x) for x in typing.get_args(a))
-        return issubclass(v, a)
+            return any(issubclass(v, typing.get_origin(x) or x) for x in typing.get_args(a))
+        return issubclass(v, typing.get_origin(a) or a)  # Type[List[int]]: only the origin can be decided at run time
     if isinstance(T, type):
         return isinstance(v, T)
     raise AssertionError(f"reference checker: annotation outside the language: {T!r}")
@@ -143,7 +143,7 @@ def _has_marker(T):
 # value shapes: functions of (l0, l1, l2, h) -> value.  l* symbolic leaves, h a hashable element from HPOOL.
 
 HPOOL = [0, 1, "a", "", None, True, 1.5, "r"]
-CLSPOOL = [int, bool, str, float, UserCls, UserSub, SpecCls, object, NoneType, list]
+CLSPOOL = [int, bool, str, float, UserCls, UserSub, SpecCls, object, NoneType, list, dict]
 
 SHAPES = [
     ("leaf", lambda l0, l1, l2, h, c: l0, 1),
@@ -237,7 +237,8 @@ def make_harness(label, Tref, nbounds=0, thorough=False):
         try:
             got = check_type(v, libT)
         except Exception as e:
-            check(False, "within the annotation language the check never raises", f"C15/{label}/raises-{type(e).__name__}", lambda: f"shape {name}: {e!r}")
+            err = e
+            check(False, "within the annotation language the check never raises", f"C15/{label}/raises-{type(e).__name__}", lambda: f"shape {name} value {v!r}: {err!r}")
         check(bool(got) == want, "accepted exactly when it conforms", f"C15/{label}/{'false-accept' if got else 'false-reject'}", lambda: f"shape {name} value {v!r}: check_type={got!r} conforms={want!r}")
         return "accept" if want else "reject"
 
@@ -298,6 +299,10 @@ def annotations(tier):
         add(f"Type[{n}]", Type[t])
     add("type[str]", type[str])
     add("Type[Union[int,str]]", Type[Union[int, str]])
+    add("Type[List[int]]", Type[List[int]])
+    add("Type[Dict[str,int]]", Type[Dict[str, int]])
+    add("Type[Optional[int]]", Type[Optional[int]])
+    add("Type[Union[List[int],str]]", Type[Union[List[int], str]])
     # bounded with symbolic bounds (incl. zero)
     for num_n, num in (("int", int), ("float", float)):
         add(f"bounded({num_n},ge=b)", lambda b0, b1, num=num: B(num, ge=b0), 1)
